@@ -97,6 +97,11 @@ func (c *nonceTtlComp) Exec(t []string) (extra []string, out string, eff bool) {
 				}
 				call(id, nonce)
 				call(id, nonce-1)
+				if lead == -60*time.Millisecond {
+					// a nonce above the remembered one that is already older than the window when it arrives (a
+					// request held back in transit): stale, whatever is remembered for the identity
+					call(id, nonce+int64(20*time.Millisecond))
+				}
 			}
 			call(id, time.Now().UnixNano()) // a later nonce is still welcome
 		}()
